@@ -76,9 +76,14 @@ class Cells(Monitor):
     """Serves C10 and C11; ``props`` selects which oracles raise."""
     name = "cells"
 
-    def __init__(self, ctx, props=("C10", "C11")):
+    def __init__(self, ctx, props=("C10", "C11"), report_as=None):
         self.ctx = ctx
         self.props = props
+        if report_as is not None:
+            # the same oracles serve another property (C09: no factor of the moving unit missing or duplicated)
+            original = ctx.violation
+            ctx.violation = lambda prop, oracle, detail, stop=True: original(
+                report_as if prop == "C10" else prop, oracle, detail, stop)
         self.infos = None
         self.ids = {}
         self.legs = 0
@@ -331,6 +336,28 @@ class Cells(Monitor):
                 ctx.violation("C10", "cell_bounding_events_differ_from_units_in_far_cells",
                               {"tagger": tagger.tag, "missing": list((expected - got).elements())[:5],
                                "extra": list((got - expected).elements())[:5], "active": active})
+        # coverage decided by positions only (independent of which units the occupancy calls surplus): every unit
+        # located in a nearby cell is the target of exactly one explicit pair event; with a far family present every
+        # unit in a far cell is treated exactly once by an explicit surplus event or by the far family
+        if info.taggers["excluded"]:
+            explicit = targets(info.taggers["excluded"][0])
+            if info.taggers["surplus"]:
+                explicit = explicit + targets(info.taggers["surplus"][0])
+            for unit in near_by_position:
+                if explicit[unit] != 1:
+                    ctx.violation("C10", "unit_in_nearby_cell_missed" if explicit[unit] == 0
+                                  else "unit_in_nearby_cell_treated_twice",
+                                  {"unit": unit, "active": active, "times": explicit[unit],
+                                   "recorded_as_surplus": unit in surplus})
+            if far_taggers:
+                far_live = Counter(tuple(u) for cell in info.cell_list if cell not in nearby
+                                   for u in info.state[cell])
+                for unit in far_by_position:
+                    if explicit[unit] + far_live[unit] != 1:
+                        ctx.violation("C10", "unit_in_far_cell_not_treated_exactly_once",
+                                      {"unit": unit, "active": active, "explicit": explicit[unit],
+                                       "far": far_live[unit]})
+            ctx.probes["c10_position_coverage_checks"] += 1
         for tagger in info.taggers["veto"]:
             pend = self._pending_of(tagger)
             if len(pend) != 1 or tuple(pend[0][0]) != tuple(active):
